@@ -115,6 +115,28 @@ def restrictFinish (s : RSt) (p var newLow newHigh : Nat) : RSt × Nat :=
       let i := s.out.size
       ({ out := s.out.push node, cache := s.cache.insert node i, newId := s.newId.insert p i }, i)
 
+/-- `restrictFinish` with every field of the state used linearly (no hidden copy of `out` / `node_cache` /
+    `new_id` while the state is uniquely referenced). Compiled code uses this version (`@[csimp]`, justified by
+    the equation below); all theorems are about `restrictFinish`. Without it the model is quadratic on operands
+    with > 10^5 nodes. -/
+def restrictFinishFast (s : RSt) (p var newLow newHigh : Nat) : RSt × Nat :=
+  match s with
+  | ⟨out, cache, newId⟩ =>
+    if newHigh = newLow then (⟨out, cache, newId.insert p newHigh⟩, newHigh)
+    else
+      let node : Node := ⟨var, newLow, newHigh⟩
+      match cache[node]? with
+      | some i => (⟨out, cache, newId.insert p i⟩, i)
+      | none =>
+        let i := out.size
+        (⟨out.push node, cache.insert node i, newId.insert p i⟩, i)
+
+@[csimp] theorem restrictFinish_eq_fast : @restrictFinish = @restrictFinishFast := by
+  funext s p var newLow newHigh
+  obtain ⟨out, cache, newId⟩ := s
+  unfold restrictFinish restrictFinishFast
+  by_cases h : newHigh = newLow <;> simp only [h, if_true, if_false]
+
 /-- one visit of pointer `p` (the body of the `while let Some(top) = stack.pop()` loop together with the
     re-visits of `top` after its children are done): `new_id` is consulted first; on a restricted variable
     only the relevant child is translated and its new id is copied; otherwise the HIGH child is translated
@@ -133,6 +155,42 @@ def restrictStep (A : Arr) (pv : PVal) (rec : Nat → RSt → RSt × Nat) (p : N
       let rh := rec nd.high s
       let rl := rec nd.low rh.1
       restrictFinish rl.1 p nd.var rl.2 rh.2
+
+/-- linear-use recording of `new_id[top] = Some(new_link)` for compiled code -/
+def setIdFast (s : RSt) (p q : Nat) : RSt :=
+  match s with
+  | ⟨out, cache, newId⟩ => ⟨out, cache, newId.insert p q⟩
+
+/-- `restrictStep` with the state used linearly in the restricted-variable branch; compiled code uses this
+    version (`@[csimp]`), all theorems are about `restrictStep` -/
+def restrictStepFast (A : Arr) (pv : PVal) (rec : Nat → RSt → RSt × Nat) (p : Nat) (s : RSt) : RSt × Nat :=
+  match s.newId[p]? with
+  | some q => (s, q)
+  | none =>
+    let nd := nodeAt A p
+    match pv.get nd.var with
+    | some value =>
+      match rec (if value then nd.high else nd.low) s with
+      | (s1, q) => (setIdFast s1 p q, q)
+    | none =>
+      let rh := rec nd.high s
+      let rl := rec nd.low rh.1
+      restrictFinish rl.1 p nd.var rl.2 rh.2
+
+@[csimp] theorem restrictStep_eq_fast : @restrictStep = @restrictStepFast := by
+  funext A pv rec p s
+  unfold restrictStep restrictStepFast
+  cases s.newId[p]? with
+  | some q => rfl
+  | none =>
+    simp only
+    cases pv.get (nodeAt A p).var with
+    | none => rfl
+    | some value =>
+      simp only
+      generalize rec (if value = true then (nodeAt A p).high else (nodeAt A p).low) s = r
+      obtain ⟨⟨out, cache, newId⟩, q⟩ := r
+      rfl
 
 def restrictRec (A : Arr) (pv : PVal) : Nat → Nat → RSt → RSt × Nat
   | 0 => fun _ s => (s, 0)
